@@ -1,8 +1,12 @@
 package main
 
 import (
+	"bytes"
+	"encoding/json"
 	"fmt"
 	"os"
+	"os/exec"
+	"regexp"
 	"sort"
 	"strings"
 
@@ -398,8 +402,95 @@ func partA(o Opts, res *Result, zctx *zed.Context, U []UVal) (map[bool]matrix, e
 	return base, nil
 }
 
+// The operators under test run their own goroutines (sort.Op.run, merge's
+// pullers); a panic there cannot be recovered and kills the process.  The
+// harness therefore runs as a child of itself: when the child dies the parent
+// reports the crash as a failure, with the case the child was working on.
 func c06(o Opts) error {
+	if os.Getenv("ZVH_C06_CHILD") != "" {
+		os.Remove(o.Out + "/partial-failures.json")
+		f, err := os.OpenFile(o.Out+"/current-case.json", os.O_CREATE|os.O_RDWR|os.O_TRUNC, 0644)
+		if err == nil {
+			crumbFile = f
+		}
+		return c06Run(o)
+	}
+	cmd := exec.Command(os.Args[0], os.Args[1:]...)
+	cmd.Env = append(os.Environ(), "ZVH_C06_CHILD=1")
+	var stderr bytes.Buffer
+	cmd.Stdout = os.Stdout
+	cmd.Stderr = &stderr
+	err := cmd.Run()
+	if err == nil {
+		os.Stderr.Write(stderr.Bytes())
+		os.Remove(o.Out + "/current-case.json")
+		os.Remove(o.Out + "/partial-failures.json")
+		return nil
+	}
+	msg := stderr.String()
+	if ee, ok := err.(*exec.ExitError); ok && ee.ExitCode() == 3 {
+		return fmt.Errorf("%s", truncate(msg, 4000)) // the harness itself reported an error
+	}
+	// crash of the code under test
+	first := strings.SplitN(strings.TrimSpace(msg), "\n", 2)[0]
+	site := "unknown"
+	if m := regexp.MustCompile(`github\.com/brimdata/super/([^\s(]+(?:\(\*?\w+\))?[.\w]*)`).FindStringSubmatch(msg); m != nil {
+		site = m[1]
+	}
+	var cur any
+	if b, err := os.ReadFile(o.Out + "/current-case.json"); err == nil {
+		json.Unmarshal(bytes.TrimRight(b, "\x00 \n"), &cur)
+	}
 	res := NewResult("C06")
+	if b, err := os.ReadFile(o.Out + "/partial-failures.json"); err == nil {
+		var fs []Failure
+		if json.Unmarshal(b, &fs) == nil {
+			for _, f := range fs {
+				res.Fail(f)
+			}
+		}
+	}
+	res.Fail(Failure{Kind: "panic", Sig: "crash:" + site,
+		Detail:   fmt.Sprintf("the process running the operators died (%v): %s; stack: %s", err, first, truncate(msg, 1500)),
+		Replay:   map[string]any{"case_in_progress": cur, "seed": o.Seed, "tier": o.Tier},
+		Expected: "no panic in an operator goroutine", Observed: first})
+	res.Rule = "harness child crashed; only the crash is reported"
+	os.WriteFile(o.Out+"/cases.v", []byte("From ZV Require Import Base.Prelude.\nDefinition M : list N := [].\nPrint M.\n"), 0644)
+	res.Write(o.Out)
+	return nil
+}
+
+var crumbFile *os.File
+
+// crumb records the case about to be run so that a crash can be attributed.
+func crumb(v any) {
+	if crumbFile == nil {
+		return
+	}
+	b, err := json.Marshal(v)
+	if err != nil {
+		return
+	}
+	crumbFile.Truncate(0)
+	crumbFile.WriteAt(b, 0)
+	if crumbRes != nil && len(crumbRes.Failures) != crumbSaved {
+		// keep the failures found so far where the parent can pick them up after a crash
+		if fb, err := json.Marshal(crumbRes.Failures); err == nil {
+			os.WriteFile(crumbDir+"/partial-failures.json", fb, 0644)
+			crumbSaved = len(crumbRes.Failures)
+		}
+	}
+}
+
+var (
+	crumbRes   *Result
+	crumbDir   string
+	crumbSaved int
+)
+
+func c06Run(o Opts) error {
+	res := NewResult("C06")
+	crumbRes, crumbDir = res, o.Out
 	rng := NewRng(o.Seed)
 	zctx := zed.NewContext()
 	extra := 30
@@ -469,13 +560,18 @@ func c06(o Opts) error {
 	if err := partD(o, rng, res, zctx, U, base); err != nil {
 		return err
 	}
+	eosCases, err := partE(o, rng, res, zctx, U, base)
+	if err != nil {
+		return err
+	}
+	sortCases = append(sortCases, eosCases...)
 	WriteCoqList(&sb, "sort_cases", "sort_case", sortCases)
 	res.ModelCases += len(sortCases)
 	sb.WriteString("Definition M := Eval vm_compute in (matrix_mismatches true univ matrix_true, matrix_mismatches false univ matrix_false, sort_mismatches univ sort_cases).\nPrint M.\n")
 	if err := os.WriteFile(o.Out+"/cases.v", []byte(sb.String()), 0644); err != nil {
 		return err
 	}
-	res.Rule = "pairs/triples: every ordered pair and triple of the curated universe (all types, boundary numbers, nulls of each type, missing) under 2 value comparators, compare(), the descending and the 4 lake comparators; sort/merge cases: generated record sequences x 1..3 keys x asc/desc x nulls first/last x -r x memory limits (key columns mix integers beyond 2^53 with floats freely); relational operators vs compare() on all number pairs; a sort case is non-trivial when it has >= 2 distinct and >= 1 equal key pairs, distinct = distinct (keys, flags, key columns, run split)"
+	res.Rule = "pairs/triples: every ordered pair and triple of the curated universe (all types, boundary numbers, nulls of each type, missing) under 2 value comparators, compare(), the descending and the 4 lake comparators; sort/merge cases: generated record sequences x 1..3 keys x asc/desc x nulls first/last x -r x memory limits (key columns mix integers beyond 2^53 with floats freely); relational operators vs compare() on all number pairs; every operator instance (sort.Op, merge.Op, a reused Comparator, `over rows => (sort ...)` queries) also driven through 2-4 EOS-delimited inputs, each input checked on its own; a sort case is non-trivial when it has >= 2 distinct and >= 1 equal key pairs, distinct = distinct (keys, flags, key columns, run split)"
 	res.Write(o.Out)
 	return nil
 }
